@@ -14,6 +14,7 @@ import (
 	"mime"
 	"strconv"
 	"strings"
+	"sync/atomic"
 	"time"
 
 	"github.com/la5nta/wl2k-go/transport"
@@ -453,6 +454,9 @@ func (s *Session) writeCompressed(rw io.ReadWriter, p *Proposal) (err error) {
 
 	buffer := bytes.NewBuffer(p.compressedData[p.offset:])
 
+	// Number of bytes left in buffer. Shared with the status goroutine (must be accessed atomically).
+	remaining := int64(buffer.Len())
+
 	// Update Status of message transfer every 250ms
 	statusTicker := time.NewTicker(250 * time.Millisecond)
 	statusDone := make(chan struct{})
@@ -470,7 +474,7 @@ func (s *Session) writeCompressed(rw io.ReadWriter, p *Proposal) (err error) {
 					txBufLen = b.TxBufferLen()
 				}
 
-				transferred := p.compressedSize - buffer.Len() - txBufLen
+				transferred := p.compressedSize - int(atomic.LoadInt64(&remaining)) - txBufLen
 				if transferred < 0 {
 					transferred = 0
 				}
@@ -486,7 +490,7 @@ func (s *Session) writeCompressed(rw io.ReadWriter, p *Proposal) (err error) {
 				if s.statusUpdater != nil {
 					s.statusUpdater.UpdateStatus(Status{
 						Sending:          p,
-						BytesTransferred: p.compressedSize - buffer.Len(),
+						BytesTransferred: p.compressedSize - int(atomic.LoadInt64(&remaining)),
 						BytesTotal:       p.compressedSize,
 						Done:             true,
 					})
@@ -515,6 +519,7 @@ func (s *Session) writeCompressed(rw io.ReadWriter, p *Proposal) (err error) {
 			}
 			checksum += int64(c)
 		}
+		atomic.AddInt64(&remaining, -int64(msgLen))
 
 		if err = writer.Flush(); err != nil {
 			return err
@@ -602,14 +607,18 @@ func (s *Session) readCompressed(rw io.ReadWriter, p *Proposal) (err error) {
 		s.log.Println("GZIP_EXPERIMENT:", "Receiving gzip compressed message.")
 	}
 
-	statusUpdate := make(chan struct{})
+	// The number of bytes received is passed on the channel, buf must not be shared with the status goroutine.
+	statusUpdate := make(chan int)
 	go func() {
 		for {
-			_, ok := <-statusUpdate
+			n, ok := <-statusUpdate
+			if !ok {
+				n = buf.Len() // No more writes to buf once the channel is closed
+			}
 			if s.statusUpdater != nil {
 				s.statusUpdater.UpdateStatus(Status{
 					Receiving:        p,
-					BytesTransferred: buf.Len(),
+					BytesTransferred: n,
 					BytesTotal:       p.compressedSize,
 					Done:             !ok,
 				})
@@ -622,7 +631,7 @@ func (s *Session) readCompressed(rw io.ReadWriter, p *Proposal) (err error) {
 	defer func() { close(statusUpdate) }()
 	updateStatus := func() {
 		select {
-		case statusUpdate <- struct{}{}:
+		case statusUpdate <- buf.Len():
 		default:
 		}
 	}
